@@ -132,8 +132,10 @@ class UBI(Chain):
         # pad M into M' (see spec, p.12-13)
         if bitlen is None:
             bitlen=len(M)*8
-        else:
+        elif bitlen%8:
             M = (Bits(M,bitlen)//Bits(1,1)).bytes()
+        else:
+            M = M[:bitlen//8]
         # get BitPad flag:
         B = 1 if bitlen%8 else 0
         # pad M' into M'':
